@@ -897,7 +897,64 @@ def r17_macro_strings_are_written_as_given(ctx, rid='C19.R17', lead='', only=Non
     ctx.floor(rid, 'string fields of the Properties values built by the attribute macros', n, 1 if only else 4)
 
 
+DISCARDING = {'retain', 'retain_mut', 'dedup', 'dedup_by', 'dedup_by_key', 'filter', 'filter_map', 'truncate', 'remove', 'swap_remove', 'pop', 'drain', 'skip',
+              'take', 'skip_while', 'take_while', 'map_while', 'step_by', 'split_off', 'clear', 'extract_if'}
+
+
+def r18_every_source_of_from_reaches_the_import(ctx):
+    from ..govern import controlling_switches
+    from .c04 import SHAPE_CALLS
+    ctx.rule('C19.R18', 'P12 decision audit on the `from!` macro (proc-macro crate MIR): every module path written in `from![..]` becomes one source of the emitted '
+             '`Import`. In the functions of pavex_macros::from, whether a source is pushed depends only on the shape of the input (the loop over the paths, '
+             'whether validation failed, the wildcard test) - never on a comparison with the other sources - and no list of sources is filtered, '
+             'de-duplicated or truncated (`retain`, `dedup`, `filter`, ..): "a parent module already covers it" is the compiler\'s call, and '
+             '`super::super::shared` is not inside `super`.')
+    bodies = [b for b in ctx.fb.bodies('pavex_macros', 'ProcMacro') if not b.is_promoted and b.file.endswith('pavex_macros/src/from.rs')]
+    if not ctx.need('C19.R18', 'bodies of pavex_macros/src/from.rs', bodies):
+        return
+    n = 0
+    disc = []
+    by_id = {}
+    for b in bodies:
+        by_id.setdefault(b.nid, []).append(b)
+    for b in bodies:
+        defs = Defs(b)
+        for bb, t in b.calls():
+            c = callee(t) or ''
+            m = c.split('::')[-1].split('<')[0]
+            if m in DISCARDING and ('Vec' in c or 'iter' in c.lower() or 'slice' in c):
+                disc.append('%s at %s' % (m, b.loc(bb, t)))
+            if m not in ('push', 'extend', 'insert', 'push_back') or not any('String' in (a or '') for a in t.get('aty', [])[1:]):
+                continue
+            if 'Vec' not in c:
+                continue
+            n += 1
+            bad = []
+            for sb, st in controlling_switches(b, bb):
+                if 'enum' in st:
+                    continue
+                pl = op_place(st['d'])
+                sl, _ = backward_slice(b, pl['l'], defs) if pl is not None else ([], set())
+                cs = {x.split('::')[-1].split('<')[0] for x, _, _ in slice_calls(sl)}
+                # a predicate closure handed to any / all / position is a shape test iff its own body calls nothing but shape tests
+                # (`matches!(p, ModulePath::Wildcard(_))` compiles to a discriminant switch; `source.starts_with(r)` is a comparison)
+                for _, _, nd in sl:
+                    rv_ = nd.get('rv') or {}
+                    if rv_.get('k') == 'agg' and rv_.get('ak') == 'closure':
+                        for cb in by_id.get(strip_generics(rv_['def']), []):
+                            cs |= {'closure:' + (callee(u) or '?').split('::')[-1].split('<')[0] for _, u in cb.calls()
+                                   if (callee(u) or '?').split('::')[-1].split('<')[0] not in SHAPE_CALLS}
+                if cs and not (cs - SHAPE_CALLS - {'any', 'all', 'branch', 'parse', 'parse2'}):
+                    continue
+                bad.append('%s at %s' % (sorted(cs) or 'a flag', b.loc(sb)))
+            ctx.ob('C19.R18', 'source-always-pushed|%s|#%d' % (b.nid.replace('pavex_macros::', ''), n), not bad, b.loc(bb, t),
+                   'the push of a source is governed by shape tests only%s' % ('' if not bad else ' — NO: it also depends on ' + '; '.join(bad)))
+    ctx.floor('C19.R18', 'pushes of a source in pavex_macros::from', n, 1)
+    ctx.ob('C19.R18', 'no-source-list-is-filtered', not disc, bodies[0].loc(), 'discarding operations in pavex_macros/src/from.rs: %s' % (disc or 'none'))
+
+
 def check(ctx):
+    r18_every_source_of_from_reaches_the_import(ctx)
     r17_macro_strings_are_written_as_given(ctx)
     r16_reader_goes_as_deep_as_the_writer(ctx)
     r15_method_set_reaches_the_compiler_as_written(ctx)
